@@ -304,7 +304,7 @@ def check_case(c):
 
     def fail(sym, what):
         return Failure('%s/%s' % (c.clause, sym), '%s: %s  [op: %s] impl=%s' % (c.clause, what, c.line[:200], c.impl[:200]),
-                       {'line': c.line, 'clause': c.clause, 'meta': m})
+                       {'line': c.line, 'clause': c.clause, 'meta': m}, case=c)
     if op == 'ctor':
         unit = 's' if m['unit'] == 'none' else m['unit']
         vals = m['vals']
